@@ -170,6 +170,35 @@ CLAIMED.update({
     design='7 (C20)'),
 })
 
+CLAIMED.update({
+ 'C06': dict(
+    text='Machine-checked proofs (Lean 4) on a model of RunningFailureHandler for EVERY sequence of notifications / triggers / aborts over any number '
+         'of applications and processes: mutual exclusion of the job sets (with the code\'s proviso stated), the action triggered is the maximum of the '
+         'notified strategies (STOP_APPLICATION > RESTART_APPLICATION > RESTART_PROCESS > CONTINUE), order independence of simultaneous notifications, '
+         'promotion exactly when the application is left stopped, nothing triggered while busy, triggered once, abort clears, the Master alone hands lost '
+         'processes over in every working state (also proved on the instance FSM model: every failJobs order is emitted while Master). Tie: lock-step with '
+         'the real handler inside a real instance, incl. exhaustive small scope.',
+    note='Partial: the end-to-end clause "running again on exactly one surviving instance / FATAL if none has room" is not covered by a theorem (commander '
+         'layer: C04/C14 placement + C10); three readings recorded in the evidence (RESTART_APPLICATION supersedes the process jobs of start-sequence '
+         'processes only; promotion needs the process in the start sequence; a forced state is not a crash). One defect repaired (896a4df: losses during '
+         'CONCILIATION were never handled). Trusted: harness/c06.py, Drv/C06.lean, application.stopped()/process.crashed() supplied as data.',
+    technique='Lean 4 invariant proofs over operation histories + lock-step correspondence + exhaustive small-scope enumeration',
+    design='7 (C06)'),
+ 'C19': dict(
+    text='Lean 4 model of StarterModel (prediction on mock copies, loads read from the live processes) and of an actual start in which every process '
+         'starts normally, both running the same commander model; proved: a prediction is a pure function of the world and ignores the jobs held; the '
+         'full statement "prediction = actual placement" is REFUTED with a kernel-checked witness (two sequence groups, LESS_LOADED) and kept as a known '
+         'finding; a finite single-process instance holds for all six strategies. Tie: the real StarterModel prediction is compared with the model '
+         'prediction on every generated world, then the actual start is played in lock-step; deep snapshots of every reported status before/after 1-3 '
+         'predictions judge side-effect freedom on the implementation.',
+    note='Partial: side-effect freedom is judged on the implementation (deep snapshot; defect 44b32b2 found and repaired) - the functional model cannot have '
+         'side effects by construction; the general single-group equality needs a simulation proof between two runs of the re-entrant commander (not done). '
+         'Known finding: prediction-differs-from-real-start. test_start_process is not generated yet (same StarterModel path). Trusted: harness/c19.py, '
+         'harness/cmdh.py, Drv/Cmd.lean.',
+    technique='Lean 4 kernel-checked refutation witness + model/implementation correspondence + snapshot judge on the implementation',
+    design='7 (C19)'),
+})
+
 NOT_YET = {}
 
 def main():
